@@ -139,7 +139,8 @@ def run(chk, ctx):
         cyc = P.cfg(boi).cyclic_blocks()
         chk.require(len(pushes) == 1 and pushes[0][0] in cyc, "CNT", "CNT:build_output_indices:one-push-per-expected-index", "output_indices.push(entry) once per loop iteration", "%d push site(s) into output_indices (in loop: %s)" % (len(pushes), [p[0] in cyc for p in pushes]))
         # on every path through one loop iteration the push happens exactly once
-        its = [[canon(x) for x in P.call_arg_terms(boi, bb)] for bb, t in boi.calls() if callee_name(t)[0].endswith("iter::IntoIterator>::into_iter")]
+        # what the loop draws its elements from (`for x in v.iter()` / `for x in v` over a slice / `while let Some(x) = it.next()`)
+        its = [[canon(P.call_arg_terms(boi, bb)[0])] for bb, t in boi.calls() if callee_name(t)[0] == "<std::slice::Iter<T> as std::iter::Iterator>::next"]
         chk.require(its == [["[T]::iter(self.expected_indices)"]], "ORG", "ORG:build_output_indices:iterates-expected-indices-forward", "for expected_index in self.expected_indices.iter()", "build_output_indices iterates %s" % its)
         stored = set()
         for bb in sorted(boi.reachable_blocks()):
